@@ -35,6 +35,7 @@ type c04JwtCase struct {
 	Prev   string      `json:"prev,omitempty"`
 	Other  string      `json:"other"`
 	Cb     bool        `json:"cb,omitempty"`
+	CbW    bool        `json:"cbw,omitempty"` // the unauthorized callback writes a status of its own (418) and a body
 	Reqs   []c04JwtReq `json:"reqs"`
 }
 
@@ -116,6 +117,10 @@ func c04JwtInterp(t *testing.T, c c04JwtCase) (v kit.Verdict) {
 			opts = append(opts, handler.WithUnauthorizedCallback(func(w http.ResponseWriter, r *http.Request, err error) {
 				cbCalls++
 				w.Header().Set("X-Cb", "1")
+				if c.CbW {
+					w.WriteHeader(http.StatusTeapot)
+					io.WriteString(w, "no tea")
+				}
 			}))
 		}
 		var seen *c04Seen
@@ -253,7 +258,14 @@ func c04JwtInterp(t *testing.T, c c04JwtCase) (v kit.Verdict) {
 					shown = shown[:300] + "..."
 				}
 				what = fmt.Sprintf("request %d (repetition %d) at +%v (%s, Authorization %q; reference: %s/%s)", i, rep, now.Sub(time.Date(2000, 1, 1, 0, 0, 0, 0, time.UTC)), method, shown, exp, why)
-				if msg := c04JwtJudge(what, exp, claims, rec.Code, seen); msg != "" {
+				code := rec.Code
+				if c.Cb && c.CbW && exp != c04Accept && seen.ran == 0 {
+					// a callback that answers itself decides the status (the integrator's choice);
+					// what remains of the statement: the handler does not run
+					classes[fmt.Sprintf("unspec:status-written-by-the-callback(%d)", code)] = true
+					code = http.StatusUnauthorized
+				}
+				if msg := c04JwtJudge(what, exp, claims, code, seen); msg != "" {
 					fail = msg
 					return
 				}
@@ -427,7 +439,8 @@ func c04JwtGen(rt *rapid.T) c04JwtCase {
 			c.Prev = c.Secret + "-old"
 		}
 	}
-	c.Cb = rapid.IntRange(0, 3).Draw(rt, "cb") == 0
+	c.Cb = rapid.IntRange(0, 3).Draw(rt, "cb") == 3
+	c.CbW = c.Cb && rapid.IntRange(0, 2).Draw(rt, "cbw") == 2
 	n := rapid.IntRange(1, 30).Draw(rt, "nreq")
 	longDone, centuryDone := false, false
 	wantLong := rapid.IntRange(0, 11).Draw(rt, "long?") == 7
